@@ -314,7 +314,7 @@ Theorem similarity_law_gen alpha beta D D' d k f pts :
   pw_similar alpha beta f pts ->
   (forall p, In p pts -> rho_ok D (rho2 k pts p) = true /\ rho_ok D' (rho2 k (map f pts) (f p)) = true) ->
   (forall p, In p pts -> ins D' (f p) (map f (nbrs k pts p)) = ins D p (nbrs k pts p)) ->
-  (forall p, In p pts -> evalR [] (sv_term d (sv2 D' (f p) (map f (nbrs k pts p)))) = evalR [] (sv_term d (sv2 D p (nbrs k pts p)))) ->
+  (forall p, In p pts -> evalR [] (sv_term d (firstn k (sv2 D' (f p) (map f (nbrs k pts p))))) = evalR [] (sv_term d (firstn k (sv2 D p (nbrs k pts p))))) ->
   evalR [] (geo_entropy_expr sv2 ins D' d k (map f pts)) =
   evalR [] (geo_entropy_expr sv2 ins D d k pts) + INR d / 2 * ln (kappa alpha beta D D').
 Proof.
@@ -357,7 +357,7 @@ Theorem similarity_law alpha beta D D' d k f pts :
   evalR [] (geo_entropy_expr sv2 ins D d k pts) + INR d / 2 * ln (kappa alpha beta D D').
 Proof.
   intros Ha Hb HD HD' Hne S Hrho Hins Hsv. apply similarity_law_gen; try assumption.
-  intros p Hp. apply (sv_term_related (kappa alpha beta D D')); [apply kappa_pos; assumption|apply Hsv; exact Hp].
+  intros p Hp. apply (sv_term_related (kappa alpha beta D D')); [apply kappa_pos; assumption|apply Forall2_firstn, Hsv; exact Hp].
 Qed.
 
 (* ---- isometries: maps that preserve all pairwise distances of the sample (translations, rotations, reflections
@@ -548,7 +548,7 @@ Proof.
   rewrite (similarity_law_gen sv2_1 ins_1 alpha beta D D' 1 k f pts); try assumption.
   - cbn [INR]. lra.
   - intros p Hp. apply (ins_1_sim alpha beta D D' f pts); try assumption. apply nbrs_incl.
-  - intros p Hp. unfold sv2_1. rewrite !sv_term_single. reflexivity.
+  - intros p Hp. unfold sv2_1. destruct k as [|k']; cbn [firstn]; [reflexivity|]. rewrite !firstn_nil, !sv_term_single. reflexivity.
 Qed.
 
 Theorem geo1_row_perm_invariant D k pts pts' : Permutation pts pts' ->
